@@ -61,6 +61,7 @@ var frags = map[string]frag{
 	"slbtag":   {src: "Fslbtag EDigest", dst: "Fslbtag EDigest"},
 	"slext":    {src: "Fslext []vrt.VInt", dst: "Fslext []vrt.VInt"},
 	"slextp":   {src: "Fslextp []*vrt.VS", dst: "Fslextp []*vrt.VS"},
+	"slhid":    {src: "Fh vrt.VHA", dst: "Fh vrt.VHB", scalars: []string{"Fh.K:int"}},
 	"slnest":   {src: "Fsn EN5", dst: "Fsn EN6", scalars: []string{"Fsn.K:int"}},
 	"nest":     {src: "Fnest EN", dst: "Fnest EN2", scalars: []string{"Fnest.X:int", "Fnest.Y:string"}},
 	"nestE":    {src: "FnestE EN", dst: "FnestE EN2", notes: []string{":conv CvE2 FnestE.X FnestE.X"}, scalars: []string{"FnestE.X:int", "FnestE.Y:string"}},
@@ -173,6 +174,21 @@ type VS struct {
 type VP struct {
 	Pub int
 	hid int
+}
+
+// VHA and VHB hold slices whose element type only this package can name. Code outside can read and assign
+// such a slice but cannot write down its type: there is no make([]vrt.vhid, n) over there.
+type vhid int
+
+type VHA struct {
+	Entries []vhid
+	K       int
+}
+
+type VHB struct {
+	Entries []vhid
+	K       int
+	Z       bool
 }
 
 type Event struct {
